@@ -125,13 +125,13 @@ def u_read_groups(which):
             if e.obj.cls.name in ('NameError', 'UnboundLocalError'):
                 raise Unsupported('extracted statement reads a variable defined outside it (%s)' % (e.obj.fields.get('args'),))
             out = Outcome('raise', e.obj)
-        check_outcome(I, out, raises={'KeyError': z3.BoolVal(same)}, returns=lambda r: [
+        check_outcome(I, out, raises={'*': z3.BoolVal(same)}, returns=lambda r: [
             ('every entry is stored under the group its name denotes, with the data read from that entry by the property-set loader',
              z3.BoolVal(len(lib_contents) == 2 and sorted(_sets(I, v).get('thermochem', (None, None))[1] for v in lib_contents.values()) == [1, 2]
                         and all(ld == ('the-loader',) for _, ld in loads) and [d for d, _ in loads] == [('entry', 1), ('entry', 2)])),
             ('the property sets of a group are held in a mutable mapping of the library\'s own (Update adds the property sets of an included file to it: the loader\'s '
              'read-only mapping cannot take them)', z3.BoolVal(all(isinstance(v, dict) for v in lib_contents.values())))])
-        if out.kind == 'raise' and out.value.cls.name == 'KeyError':
+        if out.kind == 'raise':
             ctx.oblige('the duplicate is rejected before its data replace the first definition', z3.BoolVal(len(lib_contents) == 1 and [_sets(I, v) for v in lib_contents.values()] == [{'thermochem': ('corr', 1)}]))
         return {'inputs': {}}
     return run
